@@ -137,7 +137,7 @@ inductive Validator where
   | discrete | dubins | reedsShepp | dubins3D
 deriving Repr, DecidableEq
 
-/-- Dubins3D: `getPath` found no path, `return false`.  As the code stands after the F75 fix the call
+/-- Dubins3D: `getPath` found no path, `return false`.  As the code stands since the F75 fix (449563fe0) the call
 counts one invalid motion (`counted = true`); before it, it changed nothing (`counted = false`).
 In both versions `lastValid` is left unset. -/
 def noPath (counted : Bool) (queries : List Nat) : Result :=
@@ -154,7 +154,7 @@ def checkMotion2 (val : Validator) (pathOk : Bool) (n : Nat) (v : Nat → Bool) 
     else checkBisectGen true n v
   | _ => checkBisectGen true n v
 
-/-- the same after the F7 fix but before the F75 fix: Dubins3D's no-path return counts nothing. -/
+/-- the same after the F7 fix (dec95a161) but before the F75 fix (449563fe0): Dubins3D's no-path return counts nothing. -/
 def checkMotion2PreF75 (val : Validator) (pathOk : Bool) (n : Nat) (v : Nat → Bool) : Result :=
   match val with
   | .dubins3D =>
@@ -330,14 +330,14 @@ def traverse (m : Nat) (geom : Bool) (v : Nat → Bool) : Bool × List Nat × Na
   | some j => (false, (linScan v 1 m).1, j - 1)
   | none => (geom, (linScan v 1 m).1, m)
 
-/-- `checkMotion(s1, s2)` as the code stands in /repo:
+/-- `checkMotion(s1, s2)` as the code stood before the fixes 894715569 (F120) and a7ee00eca (F121/F122):
 `isSatisfied(s2) && discreteGeodesic(s1, s2, false)` — `s2` is never handed to `isValid` and no
 counter moves. -/
 def constrained2Old (sat : Bool) (m : Nat) (geom : Bool) (v : Nat → Bool) : CResult :=
   if !sat then ⟨false, none, false, [], 0, 0⟩
   else ⟨(traverse m geom v).1, none, false, (traverse m geom v).2.1, 0, 0⟩
 
-/-- `checkMotion(s1, s2, lastValid)` as the code stands in /repo: `lastValid` is written only when the
+/-- `checkMotion(s1, s2, lastValid)` as the code stood before those fixes: `lastValid` is written only when the
 traversal stopped early *and* `lastValid.first` is non-null; the verdict is
 `isSatisfied(s2) && reached`; no counter moves. -/
 def constrained3Old (hasFirst sat : Bool) (m : Nat) (geom : Bool) (v : Nat → Bool) : CResult :=
@@ -345,7 +345,7 @@ def constrained3Old (hasFirst sat : Bool) (m : Nat) (geom : Bool) (v : Nat → B
     ⟨sat && (traverse m geom v).1, some (traverse m geom v).2.2, true, (traverse m geom v).2.1, 0, 0⟩
   else ⟨sat && (traverse m geom v).1, none, false, (traverse m geom v).2.1, 0, 0⟩
 
-/-- `checkMotion(s1, s2)` after the proposed fixes F120 (count) and F121 (validate the end state):
+/-- `checkMotion(s1, s2)` as it is in /repo since F120 (count, 894715569) and F121 (validate the end state, a7ee00eca):
 `isValid(s2) && isSatisfied(s2) && discreteGeodesic(…)`, then exactly one counter. -/
 def constrained2 (sat : Bool) (m : Nat) (geom : Bool) (v : Nat → Bool) : CResult :=
   if !v (m + 1) then ⟨false, none, false, [m + 1], 0, 1⟩
@@ -353,7 +353,7 @@ def constrained2 (sat : Bool) (m : Nat) (geom : Bool) (v : Nat → Bool) : CResu
   else if (traverse m geom v).1 then ⟨true, none, false, (m + 1) :: (traverse m geom v).2.1, 1, 0⟩
   else ⟨false, none, false, (m + 1) :: (traverse m geom v).2.1, 0, 1⟩
 
-/-- `checkMotion(s1, s2, lastValid)` after F120, F121 and F122: the verdict is
+/-- `checkMotion(s1, s2, lastValid)` as it is in /repo since F120, F121 and F122: the verdict is
 `reached && isSatisfied(s2) && isValid(s2)` (short-circuit, so `s2` is asked about last), every
 failure writes `lastValid.second` and, when non-null, `lastValid.first := g_back`. -/
 def constrained3 (hasFirst sat : Bool) (m : Nat) (geom : Bool) (v : Nat → Bool) : CResult :=
@@ -361,5 +361,17 @@ def constrained3 (hasFirst sat : Bool) (m : Nat) (geom : Bool) (v : Nat → Bool
   let q := (traverse m geom v).2.1 ++ (if askEnd then [m + 1] else [])
   if askEnd && v (m + 1) then ⟨true, none, false, q, 1, 0⟩
   else ⟨false, if hasFirst then some (traverse m geom v).2.2 else none, true, q, 0, 1⟩
+
+/-- `TangentBundleSpaceInformation::checkMotion(s1, s2, lastValid)` as coded before fix 03f44d7d7 (F123): after the
+validator, `lastValid.first` is re-projected whenever it is non-null — also after a VALID motion,
+where it still holds whatever the caller put there — and a failed projection turns the verdict to
+false.  `projOk`: that projection succeeds.  Returns (verdict, `lastValid.first` was modified). -/
+def tbWrapOld (hasFirst projOk : Bool) (r : CResult) : Bool × Bool :=
+  if hasFirst then (r.verdict && projOk, true) else (r.verdict, false)
+
+/-- the same as it is in /repo since F123 (03f44d7d7): only the state the validator wrote (invalid motion) is
+re-projected. -/
+def tbWrap (hasFirst _projOk : Bool) (r : CResult) : Bool × Bool :=
+  if !r.verdict && hasFirst then (false, true) else (r.verdict, false)
 
 end OmplModel.Motion
